@@ -30,8 +30,10 @@ WEB_HARNESS = os.path.join(R.VERIF, "harness", "sysharness", "webharness.py")
 WEB_PLAN = {
     # property -> tier -> [(mode, cases, extra harness arguments)]
     # measured (server with optimised dependencies): seq 0.17 s/history, c16 0.15 s/history, conc 0.2 s/history, d9 0.3 s
-    "C17": {"quick": [("seq", 300, []), ("conc", 40, []), ("d9", 3, [])],                        # ~60 s + 15 s proof step
-            "thorough": [("seq", 6000, []), ("conc", 600, ["--scale", "3"]), ("d9", 6, [])]},    # ~25 min
+    # runkey: scheduled histories with a task STILL RUNNING while a user whose "<user><sep><problem>" text coincides
+    # looks at / solves its own problem (2 cases per separator, `/` first; ~2.5 s per case)
+    "C17": {"quick": [("seq", 300, []), ("conc", 40, []), ("d9", 3, []), ("runkey", 4, [])],     # ~70 s + 15 s proof step
+            "thorough": [("seq", 6000, []), ("conc", 600, ["--scale", "3"]), ("d9", 6, []), ("runkey", 40, [])]},    # ~27 min
     "C16": {"quick": [("c16", 250, []), ("d9", 3, []), ("d14", 1, [])],                                          # ~40 s + 10 s proof step
             "thorough": [("c16", 4000, []), ("seq", 500, []), ("d9", 6, []), ("d14", 3, [])]},                   # ~12 min
 }
@@ -109,7 +111,7 @@ def web_extra(prop, tier, seed):
     if corr_mism and not [m for m in prop_mism if not R.match_known(prop, m, R.load_known())]:
         for k in range(1, 4):
             for mode, cases, more in WEB_PLAN[prop][tier]:
-                if mode.startswith("d9") or mode == "d14":
+                if mode.startswith("d9") or mode in ("d14", "runkey"):
                     continue
                 mism, icases, _, _ = web_run(prop, mode, cases * 5, seed * 1000 + 17 * k, tag="-ext", more=more)
                 evaluations += len(icases)
